@@ -577,6 +577,7 @@ func (r *collection) addService(service any, lifetime Lifetime, opts ...AddOptio
 		}
 
 		// Register each field as a separate service that points to the same constructor
+		siblings := make([]*Descriptor, 0, len(descriptor.resultFields))
 		for _, field := range descriptor.resultFields {
 			// Create a descriptor for each field type
 			fieldDescriptor := &Descriptor{
@@ -604,7 +605,9 @@ func (r *collection) addService(service any, lifetime Lifetime, opts ...AddOptio
 					Cause:       err,
 				}
 			}
+			siblings = append(siblings, fieldDescriptor)
 		}
+		linkSiblings(siblings)
 
 		// Don't register the result object type itself
 		return nil
@@ -622,6 +625,7 @@ func (r *collection) addService(service any, lifetime Lifetime, opts ...AddOptio
 
 		// If we have multiple non-error returns, register each as a separate service
 		if len(nonErrorReturns) > 1 {
+			siblings := make([]*Descriptor, 0, len(nonErrorReturns))
 			for i, ret := range nonErrorReturns {
 				// Create a descriptor for each return type
 				typeDescriptor := &Descriptor{
@@ -655,7 +659,9 @@ func (r *collection) addService(service any, lifetime Lifetime, opts ...AddOptio
 						Cause:       err,
 					}
 				}
+				siblings = append(siblings, typeDescriptor)
 			}
+			linkSiblings(siblings)
 			return nil
 		}
 	}
@@ -663,6 +669,7 @@ func (r *collection) addService(service any, lifetime Lifetime, opts ...AddOptio
 	// Handle As option - register under interface types
 	if len(options.As) > 0 {
 		// When As is specified, register the service under each interface type
+		siblings := make([]*Descriptor, 0, len(options.As))
 		for _, iface := range options.As {
 			interfaceType := reflect.TypeOf(iface).Elem()
 
@@ -703,7 +710,9 @@ func (r *collection) addService(service any, lifetime Lifetime, opts ...AddOptio
 					Cause:       err,
 				}
 			}
+			siblings = append(siblings, interfaceDescriptor)
 		}
+		linkSiblings(siblings)
 
 		// If As is specified, we only register under interface types, not the concrete type
 		return nil
@@ -796,6 +805,13 @@ func (n *groupNode) GetType() reflect.Type                     { return n.typ }
 func (n *groupNode) GetKey() any                               { return nil }
 func (n *groupNode) GetGroup() string                          { return n.group }
 func (n *groupNode) GetDependencies() []*reflection.Dependency { return n.deps }
+
+// linkSiblings records that the descriptors were produced by one registration call.
+func linkSiblings(siblings []*Descriptor) {
+	for _, d := range siblings {
+		d.siblings = siblings
+	}
+}
 
 // rollbackTo undoes the registrations made after allDescriptors had length mark.
 func (r *collection) rollbackTo(mark int) {
